@@ -46,6 +46,9 @@ Section Derived.
   Definition fmax (a b : T) : T :=
     if nisnan N a then b else if nisnan N b then a else if nltb N a b then b else a.
 
+  Definition fminn (a b : T) : T :=
+    if nisnan N a then b else if nisnan N b then a else if nltb N b a then b else a.
+
   (* Rust f32::clamp(lo, hi) for lo <= hi: two comparisons *)
   Definition clamp (x lo hi : T) : T :=
     let x1 := if nltb N x lo then lo else x in
@@ -77,6 +80,7 @@ Arguments of_nat {N} n.
 Arguments ratio {N} p q.
 Arguments gtb {N} a b.
 Arguments fmax {N} a b.
+Arguments fminn {N} a b.
 Arguments clamp {N} x lo hi.
 Arguments powi {N} a n.
 Arguments fsum {N} l.
